@@ -9,6 +9,7 @@ import (
 	"encoding/json"
 	"fmt"
 	"os"
+	"reflect"
 	"time"
 )
 
@@ -226,3 +227,36 @@ func Concretize(v int) int   { return v }
 func Note(s string)          {}
 func IsSymbolicRun() bool    { return false }
 func Unsupported(msg string) { panic("unsupported: " + msg) }
+
+// FieldTags returns "GoField=jsontag;" for every exported field of the struct type of v
+// (pointer dereferenced, untagged embedded structs flattened).
+func FieldTags(v interface{}) string {
+	t := reflect.TypeOf(v)
+	return fieldTags(t)
+}
+
+func fieldTags(t reflect.Type) string {
+	if t.Kind() == reflect.Ptr {
+		t = t.Elem()
+	}
+	if t.Kind() != reflect.Struct {
+		return "<not a struct>"
+	}
+	s := ""
+	for i := 0; i < t.NumField(); i++ {
+		f := t.Field(i)
+		if f.PkgPath != "" {
+			continue
+		}
+		tag := f.Tag.Get("json")
+		if f.Anonymous && tag == "" {
+			s += fieldTags(f.Type)
+			continue
+		}
+		if tag == "" {
+			tag = f.Name
+		}
+		s += f.Name + "=" + tag + ";"
+	}
+	return s
+}
